@@ -29,6 +29,15 @@ def anchored_functions(ctx):
 # package; a stale table in one of those functions breaks the property of the tool that owns it, not these two
 NO_SWEEP = {"C12", "C13"}
 
+# functions a property's entry points reach syntactically but never run under the options the property quantifies
+# over (one line of reason each)
+OUT_OF_SCOPE = {
+    # C04 / C20 are stated for *default* validation: `binary_data` is off by default, so `taste_binary_data` (whose
+    # unbound `pool` / `self.warn_nans` are finding F04 of C03, which quantifies over every option set) does not run
+    "C04": {"amr_kitchen/taste/taste.py::Taster.taste_binary_data"},
+    "C20": {"amr_kitchen/taste/taste.py::Taster.taste_binary_data"},
+}
+
 
 UNTRIMMED = ("dx", "grid_sizes", "step_numbers", "factors")
 
@@ -54,6 +63,30 @@ def rule_level_table(ctx, prefix, fi):
             if neg:
                 bad.append((n, f"`{norm(n)}` is the entry of the Header's finest level, not of the finest selected "
                                f"level (limit_level)"))
+    # the ratio list has one entry per *coarse* level: it is empty for a plotfile whose finest level is 0, so an
+    # element taken at a fixed position without a guard raises IndexError for every single-level plotfile
+    pm0 = {}
+    for x in ast.walk(fi.node):
+        for c in ast.iter_child_nodes(x):
+            pm0[c] = x
+    for n in walk_no_nested(fi.node):
+        if isinstance(n, ast.Subscript) and isinstance(n.value, ast.Attribute) and n.value.attr == "factors" \
+                and isinstance(n.ctx, ast.Load) and not isinstance(n.slice, ast.Slice):
+            guarded, cur = False, n
+            while cur in pm0:
+                cur = pm0[cur]
+                if isinstance(cur, (ast.If, ast.IfExp, ast.While)) and ("factors" in norm(cur.test) or "max_level" in norm(cur.test)
+                                                                          or "limit_level" in norm(cur.test)):
+                    guarded = True
+                if isinstance(cur, ast.For) and ("max_level" in norm(cur.iter) or "limit_level" in norm(cur.iter)
+                                                 or "factors" in norm(cur.iter)):
+                    guarded = True      # indexed by a level loop: zero iterations when there is no finer level
+                if isinstance(cur, ast.Try):
+                    guarded = True
+            if not guarded:
+                bad.append((n, f"`{norm(n)}` takes an entry of the refinement-ratio list without a guard: the list has "
+                               f"one entry per coarse level and is EMPTY for a plotfile whose finest level is 0 "
+                               f"(IndexError for every single-level plotfile)"))
     # building the table itself (`t.append(t[-1] * 2)`) is not a read of "the finest level"
     keep = []
     import ast as _a
@@ -114,6 +147,33 @@ def rule_lib_pitfall(ctx, prefix, fi):
         if any(k.arg == "mode" and isinstance(k.value, ast.Constant) and k.value.value in ("wrap", "clip") for k in n.keywords) \
                 and f.split(".")[-1] in ("take", "put", "ravel_multi_index", "choose"):
             bad.append((n, f"`{norm(n)[:70]}` maps out-of-range indices onto valid ones instead of raising"))
+    # falsy defaults: `x or default` / `if not x` on an optional *numeric* argument treats 0 (level 0, normal 0,
+    # index 0, position 0.0) like "not given"
+    import re as _re
+    NUMERIC = _re.compile(r"(^|_)(level|lv|lev|normal|pos|position|index|idx|offset|start|stop|axis|coord|cn|limit)($|_)")
+    a = fi.node.args
+    pos = a.posonlyargs + a.args
+    dflt = dict(zip([p.arg for p in pos[len(pos) - len(a.defaults):]], a.defaults))
+    dflt.update({p.arg: d for p, d in zip(a.kwonlyargs, a.kw_defaults) if d is not None})
+    optional = {p for p, d in dflt.items() if isinstance(d, ast.Constant) and d.value is None and NUMERIC.search(p)}
+
+    def _optnum(e):
+        if isinstance(e, ast.Name) and e.id in optional:
+            return e.id
+        if isinstance(e, ast.Attribute) and isinstance(e.value, ast.Name) and e.value.id == "args" and NUMERIC.search(e.attr):
+            return norm(e)
+        return None
+    for n in walk_no_nested(fi.node):
+        if isinstance(n, ast.BoolOp) and isinstance(n.op, ast.Or) and _optnum(n.values[0]):
+            bad.append((n, f"`{norm(n)[:70]}` takes the fallback whenever `{_optnum(n.values[0])}` is falsy: 0 is a legal "
+                           f"value (level 0, normal 0, index 0) and is silently replaced by the default - test `is None`"))
+        if isinstance(n, (ast.If, ast.IfExp, ast.While)):
+            t = n.test
+            if isinstance(t, ast.UnaryOp) and isinstance(t.op, ast.Not):
+                t = t.operand
+            if _optnum(t) and isinstance(t, ast.Name):
+                bad.append((n, f"`{norm(n.test)[:50]}` tests the truth of the optional numeric argument `{t.id}`: 0 is a "
+                               f"legal value and takes the branch meant for \"not given\" - test `is None`"))
     # bounded line reads: readline(n) returns at most n characters — a FAB header or a header line longer than n (large
     # indices, many digits) is cut in the middle and the rest is read as the next line / as data
     for n in walk_no_nested(fi.node):
@@ -183,8 +243,14 @@ def rule_unbound(ctx, prefix, fi):
     if any(isinstance(n, ast.ImportFrom) and any(a.name == "*" for a in n.names) for n in ast.walk(m.tree)):
         return
     seen = set()
+    # a name read only while building the argument of a `raise` changes which exception is raised, not whether
+    in_raise = {id(x) for r in walk_no_nested(fi.node) if isinstance(r, ast.Raise) for x in ast.walk(r)}
     for n in undefined_names(ctx.prog, fi):
         if n.id in seen:
+            continue
+        if id(n) in in_raise:
+            ctx.info(f"{prefix}.U1", fi.site, f"name `{n.id}` is unbound inside a raise statement (the operation is "
+                                              f"refused either way, with NameError instead of the intended exception)", n.id)
             continue
         seen.add(n.id)
         ctx.finding(f"{prefix}.U1", fi.site, f"name `{n.id}` is read but bound nowhere (NameError when reached)",
@@ -253,16 +319,22 @@ def rule_negative_wrap(ctx, prefix, fi):
 def sweep(ctx):
     if ctx.prop in NO_SWEEP:
         return
-    fns = anchored_functions(ctx)
+    anchored = [f for f in anchored_functions(ctx) if f.module.relpath not in ctx.prog.excluded]
+    # the lints hold for every function the anchored ones can reach (the reader's constructor, the header parsers,
+    # the helpers): a statement that raises or skips there breaks the operation whatever function the property names
+    seen = {}
+    for f in ctx.prog.reachable(list(anchored)):
+        if f.module.relpath not in ctx.prog.excluded and f.site not in OUT_OF_SCOPE.get(ctx.prop, ()):
+            seen[f.site] = f
+    fns = [seen[k] for k in sorted(seen)]
     for fi in fns:
-        if fi.module.relpath in ctx.prog.excluded:
-            continue
         loopstate.rule_loop_state(ctx, ctx.prop, fi)
         rule_level_table(ctx, ctx.prop, fi)
         rule_lib_pitfall(ctx, ctx.prop, fi)
         rule_unbound(ctx, ctx.prop, fi)
         rule_negative_wrap(ctx, ctx.prop, fi)
         guards.rule_new_guard(ctx, ctx.prop, fi)
-    nh = history.sweep(ctx, ctx.prop, [f for f in fns if f.module.relpath not in ctx.prog.excluded])
-    ctx.note("history_lints", {"functions_reachable_from_the_anchors": nh, "lints": ["MODULE-STATE", "INSTANCE-STATE", "MEMO-ORDER"]})
-    ctx.note("generic_lints", {"functions": len(fns), "lints": ["LOOP-STATE", "LEVEL-TABLE", "LIB-PITFALL", "U1", "U2", "NEG-WRAP", "NEW-GUARD"]})
+    nh = history.sweep(ctx, ctx.prop, fns)
+    ctx.note("generic_lints", {"anchored_functions": len(anchored), "functions_swept_(anchored_and_reachable)": len(fns),
+                               "lints": ["LOOP-STATE", "LEVEL-TABLE", "LIB-PITFALL", "U1", "U2", "NEG-WRAP", "NEW-GUARD",
+                                         "MODULE-STATE", "INSTANCE-STATE", "MEMO-ORDER", "INSTANCE-MEMO"]})
